@@ -335,7 +335,12 @@ impl<R: AsyncBufRead + Unpin> NsReader<R> {
     ) -> Result<Span> {
         // According to the https://www.w3.org/TR/xml11/#dt-etag, end name should
         // match literally the start name. See `Config::check_end_names` documentation
-        self.reader.read_to_end_into_async(end, buf).await
+        self.pop();
+        let span = self.reader.read_to_end_into_async(end, buf).await?;
+        // The end tag of the element was consumed without returning it from
+        // `read_event_into_async()`, so the namespace scope of the element ends here
+        self.ns_resolver.pop();
+        Ok(span)
     }
 
     /// An asynchronous version of [`read_resolved_event_into()`]. Reads the next
